@@ -24,17 +24,14 @@ std::vector<PairEntry> pairs_from()
         make_pair_entry<FR, TR, FI, 9>()};
 }
 
-struct Ranges {
-    int a, b;
-};
 // first operand range / second operand range.  The sanitizer flavour is 5-10x slower per call,
 // so its thorough tier uses [-500,500] (props/C12.json states this).
 Ranges ranges(mc::Reporter const& r)
 {
 #if defined(MC_FLAVOUR_SAN)
-    return r.thorough() ? Ranges{500, 40} : Ranges{200, 3};
+    return r.thorough() ? Ranges{500, 40, 0} : Ranges{200, 3, 0};
 #else
-    return r.thorough() ? Ranges{2000, 40} : Ranges{200, 3};
+    return r.thorough() ? Ranges{2000, 40, 0} : Ranges{200, 3, 0};
 #endif
 }
 
@@ -47,7 +44,7 @@ void pair_job(mc::Reporter& r)
             r.not_exhaustive("deadline");
             return;
         }
-        run_pair(r, e, rg.a, rg.b);
+        run_pair(r, e, rg);
     }
 }
 
@@ -55,7 +52,7 @@ template <typename R>
 void self_job(mc::Reporter& r)
 {
     auto const rg = ranges(r);
-    run_self(r, make_self_entry<R, FI>(), rg.a, rg.b);
+    run_self(r, make_self_entry<R, FI>(), rg);
 }
 
 } // namespace
